@@ -116,8 +116,8 @@ impl Property for C02 {
     }
     fn cases(&self, tier: Tier) -> u64 {
         match tier {
-            Tier::Quick => 24_000,
-            Tier::Thorough => 400_000,
+            Tier::Quick => 120_000,
+            Tier::Thorough => 1_500_000,
         }
     }
     fn required_labels(&self, _tier: Tier) -> Vec<&'static str> {
